@@ -68,6 +68,18 @@ func c13Sites() []c13Site {
 		{"moves-step", false, func(u string, at *AtomTable) string { return script(at, cmd(at)+"(moves("+u+"))") }, nil},
 		{"label", false, func(u string, at *AtomTable) string { return script(at, cmd(at)+"\n"+u+":\n"+cmd(at)) }, nil},
 		{"text-content", false, func(u string, at *AtomTable) string { return script(at, cmd(at)+"(\"say "+u+" now$\")") }, nil},
+		{"text-content-exact", false, func(u string, at *AtomTable) string { return script(at, cmd(at)+"(\""+u+"\")\n"+cmd(at)+"(ascii\""+u+"\")") }, nil},
+		{"text-statement-exact", false, func(u string, at *AtomTable) string {
+			return "text " + ph(at.New(ClsUserName, "text", "names")) + " {\n\"" + u + "\"\n}"
+		}, nil},
+		// a label spelled like the constant, then the constant as an argument:
+		// the label stays, the argument is replaced
+		{"command-argument-after-same-named-label", true, func(u string, at *AtomTable) string {
+			return script(at, cmd(at)+"\n\x00NAME\x00:\n"+cmd(at)+"("+u+", "+ph(at.New(ClsIdent, "arg", "consts"))+")")
+		}, nil},
+		{"case-value-later-token", true, func(u string, at *AtomTable) string {
+			return script(at, "switch (var("+ph(at.New(ClsIdent, "var", "consts"))+")) {\ncase 7 + "+u+":\n"+cmd(at)+"\ncase 777123:\n"+cmd(at)+"\n}")
+		}, nil},
 		{"mapscript-type", false, func(u string, at *AtomTable) string {
 			return "mapscripts " + ph(at.New(ClsUserName, "map", "names")) + " {\n" + u + ": " + ph(at.New(ClsIdent, "target", "consts")) + "\n}"
 		}, nil},
@@ -116,7 +128,11 @@ func c13MakeDefs(kind string, at *AtomTable) []*c13Def {
 	panic("defs")
 }
 
-func c13Case(site c13Site, defKind string) *Case {
+func c13Case(site c13Site, defKind string) *Case { return c13CaseRaw(site, defKind, false) }
+
+// c13CaseRaw: with rawAfter a top-level raw block directly follows the
+// definitions (a definition's value must end before it).
+func c13CaseRaw(site c13Site, defKind string, rawAfter bool) *Case {
 	at := &AtomTable{Coded: true}
 	defs := c13MakeDefs(defKind, at)
 	use := at.New(ClsIdent, "use", "")
@@ -129,6 +145,10 @@ func c13Case(site c13Site, defKind string) *Case {
 	}
 	mk := func(withDefs bool, u string) *Program {
 		src := strings.ReplaceAll(body, "\x00USE\x00", u)
+		src = strings.ReplaceAll(src, "\x00NAME\x00", use.Placeholder())
+		if rawAfter {
+			src = "raw `\nkept_raw_line\n`\n" + src
+		}
 		if withDefs {
 			src = strings.Join(defSrc, "\n") + "\n" + src
 		}
@@ -146,7 +166,11 @@ func c13Case(site c13Site, defKind string) *Case {
 			variants = append(variants, Variant{Name: fmt.Sprintf("expanded%d", j), Opt: opt, Prog: mk(false, d.exp())})
 		}
 	}
-	cs := &Case{Name: fmt.Sprintf("c13/%s/%s", site.name, defKind), Prog: prog, Variants: variants, NonTrivial: true, Shape: c13Shape{Site: site.name, Defs: defKind, IsSite: site.isSite}, MaxPaths: 128}
+	nm := fmt.Sprintf("c13/%s/%s", site.name, defKind)
+	if rawAfter {
+		nm += "/raw-after-definitions"
+	}
+	cs := &Case{Name: nm, Prog: prog, Variants: variants, NonTrivial: true, Shape: c13Shape{Site: site.name, Defs: defKind, IsSite: site.isSite}, MaxPaths: 128}
 	cs.Oracle = func(x *OracleCtx) *Violation {
 		base := x.Res["base"]
 		if base.Err.Panic != "" {
@@ -201,8 +225,8 @@ func c13PairCase(siteA, siteB c13Site, defKind, placement string) *Case {
 		return defs[r].exp()
 	}
 	mk := func(withDefs bool, r0, r1 int) *Program {
-		a := strings.ReplaceAll(bodies[0], "\x00USE\x00", text(r0, 0))
-		b := strings.ReplaceAll(bodies[1], "\x00USE\x00", text(r1, 1))
+		a := strings.ReplaceAll(strings.ReplaceAll(bodies[0], "\x00USE\x00", text(r0, 0)), "\x00NAME\x00", use[0].Placeholder())
+		b := strings.ReplaceAll(strings.ReplaceAll(bodies[1], "\x00USE\x00", text(r1, 1)), "\x00NAME\x00", use[1].Placeholder())
 		src := a + "\n" + b
 		if withDefs {
 			if placement == "between" {
@@ -286,6 +310,9 @@ func RunC13(env *Env, rep *Report) {
 				continue // a multi-token value cannot be written out as a mart item
 			}
 			cases = append(cases, c13Case(s, dk))
+			if dk == "one-multi" || (dk == "one-single" && s.name == "mart-item") {
+				cases = append(cases, c13CaseRaw(s, dk, true))
+			}
 		}
 	}
 	// two uses per file
